@@ -169,20 +169,23 @@ example : ObjFits (.obj [([0x61], .null)]) := by intro kvs h; injection h with h
 /-! ## `fromItems` -/
 
 /-- the loop of `fromItems` (object.go:89-112). `guardLen = false` drops `if len(ia) != 2 { return …lengthError }`
-    (object.go:98). The `enum2` test is the model's marker for map-ordered input, kept where the model has it.
+    (object.go:98). The `enum2` test is the model's marker for a map-ordered pair; it is consulted AFTER the checked
+    `ia[0]` / `ia[1]` (whose success depends on `len(ia)` only), so that a deleted guard panics on map-ordered pairs too.
     Go sites: object.go:104 `ia[0]`, :107 `ia[0]` (error message only), :111 `ia[1]`. -/
 def fromItemsLoopG (guardLen : Bool) : List Val → List (Bytes × Val) → Res (List (Bytes × Val))
   | [], acc => .ok acc
   | .arr t ia :: rest, acc =>
     if guardLen && (ia.length : Int) ≠ 2 then errValue
-    else if enum2 t ia then .nondet
     else do
-      let k ← idx? ia 0
+      let k ← idx? ia 0                                     -- k, ok := ia[0].(string)
       match k with
       | .str s => do
-        let v ← idx? ia 1
-        fromItemsLoopG guardLen rest (objInsert s v acc)
-      | _ => errValue
+        let v ← idx? ia 1                                   -- r[k] = ia[1]
+        if enum2 t ia then .nondet                          -- (model marker, after the checked reads)
+        else fromItemsLoopG guardLen rest (objInsert s v acc)
+      | _ => do
+        let _ ← idx? ia 0                                   -- reflect.TypeOf(ia[0]) of the error value
+        if enum2 t ia then .nondet else errValue
   | _ :: _, _ => errType
 
 /-- `ia[0]` and `ia[1]` are in range because of the length test before them -/
@@ -202,14 +205,14 @@ theorem fromItemsLoopC_eq : ∀ (xs : List Val) (acc : List (Bytes × Val)),
       · simp only [Bool.true_and, List.length_cons, List.length_nil]
         split
         · rename_i h; simp at h
-        · split
-          · rfl
-          · cases k <;> first | rfl | (simp only [idx?]; exact ih _)
+        · have h0 : idx? [k, v] 0 = .ok k := rfl
+          have h1 : idx? [k, v] 1 = .ok v := rfl
+          cases k <;> simp only [h0, h1, Res.ok_bind] <;> split <;> first | rfl | exact ih _
       · simp only [Bool.true_and, List.length_cons]
         rw [if_pos (by simp; omega)]
     | _ => rfl
 
-/-- `fromItems` (object.go:78-115) with the checked loop -/
+/-- `fromItems` (object.go:79-115) with the checked loop -/
 def fromItemsG (guardLen : Bool) (v : Val) : Res Val :=
   match v with
   | .arr t xs =>
@@ -238,6 +241,8 @@ example : fromItemsC (.arr .plain [.arr .plain [.str [0x61]]]) = errValue := rfl
     `from_items([['a']])` at `ia[1]` -/
 example : fromItemsG false (.arr .plain [.arr .plain []]) = .panic idxMsg := rfl
 example : fromItemsG false (.arr .plain [.arr .plain [.str [0x61]]]) = .panic idxMsg := rfl
+/-- … also when the outer array is map-ordered (`from_items(values(@))`): the reads are checked before any marker -/
+example : fromItemsG false (.arr .enum [.arr .plain [.str [0x61]], .arr .plain []]) = .panic idxMsg := rfl
 
 /-! ## `equal`, array branch -/
 
@@ -336,5 +341,59 @@ theorem selectListC_eq (root : Val) (ns : List INode) (cur : Val) (env : Env)
 
 example : fillC (fun n => ieval .null n (.bool true) []) [.current, .lit .null] = .ok [.bool true, .null] :=
   selectListC_eq _ _ _ _ (by decide)
+
+/-- `case *parser.SelectArrayNode` (evaluator.go:718-738) as a whole; `ev n v` stands for `e.evaluate(n, v, variables)`.
+    Go statements: :719 `child, err := e.evaluate(node.Child, current, variables)`, :724 `if child == nil { return nil, nil }`
+    (BEFORE the allocation: on a nil child nothing is allocated or evaluated), :728 `make([]any, len(node.Fields))`,
+    :729-736 the loop with :735 `results[i] = result` (→ `fillC`). -/
+def selectArrayC (ev : INode → Val → Res Val) (c : INode) (fs : List INode) (cur : Val) : Res Val := do
+  let child ← ev c cur                                      -- child, err := e.evaluate(node.Child, …)
+  if child.isNull then pure .null                           -- if child == nil { return nil, nil }
+  else do
+    let results ← fillC (fun f => ev f child) fs            -- results := make(…); for i, field := range … { … }
+    pure (.arr .plain results)                              -- return results, nil
+
+/-- `case *parser.SelectArrayCurrentNode` (evaluator.go:739-754): :740 `if current == nil { return nil, nil }`, then
+    :744 `make([]any, len(node.Fields))` and the loop -/
+def selectArrayCurrentC (ev : INode → Val → Res Val) (fs : List INode) (cur : Val) : Res Val :=
+  if cur.isNull then pure .null                             -- if current == nil { return nil, nil }
+  else do
+    let results ← fillC (fun f => ev f cur) fs
+    pure (.arr .plain results)
+
+/-- **the multi-select-list node with a child** evaluates as its checked mirror (nil test, allocation, writes):
+    nothing panics when the node has at most `makeLimit` fields -/
+theorem selectArrayC_eq (root : Val) (c : INode) (fs : List INode) (cur : Val) (env : Env)
+    (hfit : (fs.length : Int) ≤ makeLimit) :
+    selectArrayC (fun n v => ieval root n v env) c fs cur = ieval root (.selectArray c fs) cur env := by
+  rw [ieval]
+  unfold selectArrayC
+  apply Res.bind_congr; intro a
+  split
+  · rfl
+  · rw [selectListC_eq root fs a env hfit]
+
+/-- the same for the child-less form `[a, b]` on the current value -/
+theorem selectArrayCurrentC_eq (root : Val) (fs : List INode) (cur : Val) (env : Env)
+    (hfit : (fs.length : Int) ≤ makeLimit) :
+    selectArrayCurrentC (fun n v => ieval root n v env) fs cur = ieval root (.selectArrayCurrent fs) cur env := by
+  rw [ieval]
+  unfold selectArrayCurrentC
+  split
+  · rfl
+  · rw [selectListC_eq root fs cur env hfit]
+
+/-- **on a nil child Go returns before `make`**: no allocation, no field is evaluated — for ANY field list (also one
+    longer than the allocation limit) and any evaluator -/
+theorem selectArrayCurrentC_null (ev : INode → Val → Res Val) (fs : List INode) :
+    selectArrayCurrentC ev fs .null = .ok .null := rfl
+/-- the same with a child that evaluates to nil -/
+theorem selectArrayC_null (ev : INode → Val → Res Val) (c : INode) (fs : List INode) (cur : Val)
+    (h : ev c cur = .ok .null) : selectArrayC ev c fs cur = .ok .null := by
+  unfold selectArrayC; rw [h]; rfl
+
+example : selectArrayCurrentC (fun n v => ieval .null n v []) [.current, .lit .null] (.bool true)
+    = .ok (.arr .plain [.bool true, .null]) := rfl
+example : selectArrayC (fun n v => ieval .null n v []) (.field [0x61]) [.current] (.obj []) = .ok .null := rfl
 
 end Jmes.C03D.ObjGo
